@@ -302,6 +302,10 @@ def judge(shape, dc, cfg, doc, canon, obs, out, rep, prop):
         out.violation("C02:smile:%s" % klass(shape), "accepted value does not survive a Smile round trip", rep)
     if obs.get("twice_equal") is False:
         out.violation("C02:twice:%s" % klass(shape), "the same document deserialised twice gives unequal values", rep)
+    va = obs.get("via_any") or {}
+    if va.get("agree") is False and (obs.get("client") or {}).get("ok"):      # what `any` makes of a document direct parsing rejects is a don't-care (C13)
+        out.violation("C02:via-any:%s" % klass(shape), "the document viewed through the dynamic `any` gives %s, direct parsing gives %s" % (
+            str(va.get("text") or va.get("err"))[:80], "a value" if (obs.get("client") or {}).get("ok") else "an error"), rep)
     for how, same in (obs.get("spellings") or {}).items():
         if not same:
             out.violation("C02:spelling:%s:%s" % (how, klass(shape)),
